@@ -9,6 +9,7 @@ mod rr;
 mod rr_conc;
 mod svcrace;
 mod bb;
+mod limits;
 mod ws;
 
 use std::time::{Duration, Instant};
@@ -461,6 +462,32 @@ fn ps_concurrent(args: &Args, prop: &str) -> Report {
     rep
 }
 
+fn limits_table(args: &Args) -> Report {
+    let shard = args.u64("shard", 0);
+    let mut rep = Report::new();
+    dom::install_log_capture();
+    for (svc, which) in [("local", 0), ("ipc", 1)] {
+        let d = dom::Domain::new(&format!("c08l{}{}", shard, which));
+        let (cases, bad) = if which == 0 { limits::table::<iceoryx2::service::local::Service>(&d.config, shard) } else { limits::table::<iceoryx2::service::ipc::Service>(&d.config, shard) };
+        rep.execs += cases;
+        rep.nontrivial += cases;
+        for c in 0..cases {
+            rep.distinct(vkit::mix(vkit::fnv_str(svc), c));
+        }
+        rep.count("limit_table_cases", cases);
+        for (rule, msg) in bad {
+            rep.violation(&rule, format!("C08:limits:{}", rule), format!("{} service: {}", svc, msg), Json::obj().set("replay_args", "c08l"));
+        }
+        let rest: Vec<String> = d.residue();
+        if !rest.is_empty() {
+            rep.violation("residue", "C08:limits:residue", format!("{} service: after the table {:?}", svc, &rest[..rest.len().min(4)]), Json::obj());
+        }
+        let _ = dom::drain_bad_logs(&[]);
+    }
+    rep.sample(Json::obj().set("limits", "max_publishers, max_subscribers, max_notifiers, max_listeners, max_clients, max_servers, max_readers, single writer, max_nodes per pattern").set("values", "1..=3").set("services", "local, ipc"));
+    rep
+}
+
 fn bb_campaign(args: &Args) -> Report {
     use vkit::campaign::{campaign, Budget};
     let seed = args.u64("seed", 1);
@@ -568,6 +595,7 @@ fn main() {
         "c06" => svc_campaign(&args),
         "c06p" => svc_proc_campaign(&args),
         "c12p" => bb_campaign(&args),
+        "c08l" => limits_table(&args),
         "c17" => if args.str("svc", "local") == "ipc" { drops::campaign::<iceoryx2::service::ipc::Service>(&args, "ipc") } else { drops::campaign::<iceoryx2::service::local::Service>(&args, "local") },
         "c08r" => rr_campaign(&args, "C08"),
         "warmup" => return,
